@@ -1598,8 +1598,17 @@ def check_carry_plumb(ctx, R):
             if cc:
                 bad.setdefault('concat-order', 'an empty carry is concatenated')
             DF = batch
-        ag = _only_call(r, lambda c: nf(c.func).startswith('getattr(') and '.rolling(' in nf(c.func))
-        if len(ag) != 1 or not nf(r.calls[ag[0]][0].func).startswith('getattr(%s.rolling(window),' % DF):
+        # (the pandas rolling object may have a name of its own: then the receiver is the symbol of a `<frame>.rolling(window)` call)
+        def recv_text(c):
+            t = nf(c.func)
+            m_ = re.match(r'getattr\((C\d+),', t)
+            if m_ and int(m_.group(1)[1:]) < len(r.calls):
+                inner = nf(r.calls[int(m_.group(1)[1:])][0])
+                if inner.endswith('.rolling(window)'):
+                    t = 'getattr(' + inner + t[len(m_.group(0)) - 1:]
+            return t
+        ag = _only_call(r, lambda c: nf(c.func).startswith('getattr(') and '.rolling(' in recv_text(c))
+        if len(ag) != 1 or not recv_text(r.calls[ag[0]][0]).startswith('getattr(%s.rolling(window),' % DF):
             bad.setdefault('aggregates-concatenation', 'the rolling aggregate is not computed on the concatenation %s' % DF)
             continue
         AGG = 'C%d' % ag[0]
